@@ -13,6 +13,7 @@ mod e1_unit;
 mod e2_batchmaker;
 mod e2_mempoolsync;
 mod e2_syncretry;
+mod e2_proposer;
 mod e2_ownbatch;
 mod e2_quorumwaiter;
 mod e2_sender;
@@ -113,6 +114,7 @@ fn main() {
         "mempoolsync" => e2_mempoolsync::run(&o),
         "syncretry" => e2_syncretry::run(&o),
         "timer" => e1_timer::run(&o),
+        "proposerwait" => e2_proposer::run(&o),
         "mempoolsync-selftest" => e2_mempoolsync::selftest(&o),
         "quorumwaiter" => e2_quorumwaiter::run(&o),
         "cons" => e3_cons::run(&o),
